@@ -75,7 +75,7 @@ Proof.
   - (* TLabel *) apply Le_bind; [apply Le_refl|intro]. apply Le_bind; [apply Le_refl|intro].
     destruct b; [apply Le_with_scope; apply Hts|apply Le_refl].
   - (* TLoop *) apply Le_bind; [apply Le_refl|intros n]. destruct n; [|apply Le_refl].
-    apply Le_loop_iterations. intro i. apply Le_with_scope. apply Le_bind; [apply Le_refl|intro].
+    destruct (loop_iteration_limit <? z)%Z; [apply Le_refl|]. apply Le_loop_iterations. intro i. apply Le_with_scope. apply Le_bind; [apply Le_refl|intro].
     apply Le_bind; [apply Le_refl|intro]. apply Hts.
   - (* TInvoke *) apply Le_bind; [apply Le_refl|intro c]. apply Le_bind; [apply Le_refl|intro].
     destruct (query_all (symbols c) (current_scope_nx c) [id]); [|apply Le_refl].
